@@ -86,9 +86,41 @@ class StreamBoard(Board):
             self.count('probe.reseat')
         r._R[M.RName.PC] = pc
         data = (w >> 16).to_bytes(2, 'little') + (w & 0xFFFF).to_bytes(2, 'little') if thumb else w.to_bytes(4, 'little')
+        if spec.get('twin') and (pos * 2654435761 >> 7) % 100 < spec['twin'] and not core.lines['irq'] and not core.lines['fiq']:
+            self.twin_step(arm, w, pc, thumb)
         M.poke(arm, pc, data)
         self.after_poke(ci)
         return super().step_core(ci)
+
+    def twin_step(self, arm, w, pc, thumb):
+        """fault 'twin': the SAME 32-bit value is first executed once under the OTHER instruction set state (as an ARM word / as hw1:hw2), then
+        the complete architectural state and all memory are put back, and only then the tick proper runs.  On a processor whose step is a function
+        of its state the detour is invisible; anything it leaves behind outside the state (a decode or translation memo keyed by the word) is not."""
+        r = arm.registers
+        save = M.dump_state(arm)
+        mems = [(mc.mem, bytes(mc.mem.memory_array)) for mc in arm.mem.memories if M.flat(mc.mem) is not None and len(mc.mem.memory_array) <= (1 << 20)]
+        waits = (arm.is_wait_for_event, arm.is_wait_for_interrupt)
+        ctrls = list(arm.mem.memories)
+        self.twin_active = True
+        try:
+            arm.mem.memories[:] = [mc for mc in ctrls if M.flat(mc.mem) is not None and type(mc.mem).__name__ == 'RAM']      # (no device with side effects is reachable from the detour)
+            r.cpsr.t = 0 if thumb else 1
+            r.cpsr.it = 0
+            data = w.to_bytes(4, 'little') if thumb else (w >> 16).to_bytes(2, 'little') + (w & 0xFFFF).to_bytes(2, 'little')
+            M.poke(arm, pc, data)
+            r._R[M.RName.PC] = pc
+            try:
+                arm.emulate_cycle()
+            except Exception:
+                pass                      # (whatever the detour does - exception entry, unimplemented hook, host error - is not this tick's subject)
+            self.count('fault.twin-other-isa')
+        finally:
+            self.twin_active = False
+            arm.mem.memories[:] = ctrls
+            M.load_state(arm, save)
+            for m, bts in mems:
+                m.memory_array[:] = bts
+            arm.is_wait_for_event, arm.is_wait_for_interrupt = waits
 
     def after_poke(self, ci):
         """hook: the word of this tick is in memory, nothing has executed yet"""
